@@ -145,6 +145,115 @@ func mutate(fset *token.FileSet, f *ast.File, op string, n int, rel string) (sit
 				}
 				return true
 			})
+		case "boollit":
+			ast.Inspect(fd.Body, func(nd ast.Node) bool {
+				if id, ok := nd.(*ast.Ident); ok && (id.Name == "true" || id.Name == "false") {
+					to := "true"
+					if id.Name == "true" {
+						to = "false"
+					}
+					if hit(fmt.Sprintf("%s: %s -> %s", pos(id.Pos()), id.Name, to), fname) {
+						id.Name = to
+						applied = true
+					}
+				}
+				return true
+			})
+		case "branchstmt":
+			// continue <-> break, continue / break -> return (in functions without results)
+			noResults := fd.Type.Results == nil || len(fd.Type.Results.List) == 0
+			ast.Inspect(fd.Body, func(nd ast.Node) bool {
+				var list *[]ast.Stmt
+				switch b := nd.(type) {
+				case *ast.BlockStmt:
+					list = &b.List
+				case *ast.CaseClause:
+					list = &b.Body
+				case *ast.CommClause:
+					list = &b.Body
+				}
+				if list == nil {
+					return true
+				}
+				for i, st := range *list {
+					bs, ok := st.(*ast.BranchStmt)
+					if !ok || bs.Label != nil || (bs.Tok != token.CONTINUE && bs.Tok != token.BREAK) {
+						continue
+					}
+					to := token.BREAK
+					if bs.Tok == token.BREAK {
+						to = token.CONTINUE
+					}
+					if hit(fmt.Sprintf("%s: %s -> %s", pos(bs.Pos()), bs.Tok, to), fname) {
+						bs.Tok = to
+						applied = true
+					}
+					if noResults {
+						if hit(fmt.Sprintf("%s: %s -> return", pos(bs.Pos()), bs.Tok), fname) {
+							(*list)[i] = &ast.ReturnStmt{Return: bs.Pos()}
+							applied = true
+						}
+					}
+				}
+				return true
+			})
+		case "delcase":
+			ast.Inspect(fd.Body, func(nd ast.Node) bool {
+				var body *ast.BlockStmt
+				switch b := nd.(type) {
+				case *ast.SelectStmt:
+					body = b.Body
+				case *ast.SwitchStmt:
+					body = b.Body
+				case *ast.TypeSwitchStmt:
+					body = b.Body
+				}
+				if body == nil || len(body.List) < 2 {
+					return true
+				}
+				for i, cl := range body.List {
+					if hit(pos(cl.Pos())+": delete case", fname) {
+						nl := append([]ast.Stmt{}, body.List[:i]...)
+						nl = append(nl, body.List[i+1:]...)
+						body.List = nl
+						applied = true
+						return false
+					}
+				}
+				return true
+			})
+		case "dupstmt":
+			// a statement executed twice (a send, a call, an increment)
+			ast.Inspect(fd.Body, func(nd ast.Node) bool {
+				var list *[]ast.Stmt
+				switch b := nd.(type) {
+				case *ast.BlockStmt:
+					list = &b.List
+				case *ast.CaseClause:
+					list = &b.Body
+				case *ast.CommClause:
+					list = &b.Body
+				}
+				if list == nil {
+					return true
+				}
+				for i, st := range *list {
+					switch st.(type) {
+					case *ast.ExprStmt, *ast.SendStmt, *ast.IncDecStmt:
+					default:
+						continue
+					}
+					if hit(pos(st.Pos())+": duplicate statement", fname) {
+						nl := append([]ast.Stmt{}, (*list)[:i+1]...)
+						nl = append(nl, st)
+						nl = append(nl, (*list)[i+1:]...)
+						*list = nl
+						applied = true
+						return false
+					}
+				}
+				return true
+			})
 		case "delstmt", "swapstmt":
 			ast.Inspect(fd.Body, func(nd ast.Node) bool {
 				var list *[]ast.Stmt
@@ -210,7 +319,7 @@ func recvName(e ast.Expr) string {
 	return ""
 }
 
-var sweepOps = []string{"relop", "negate", "const", "swapargs", "delstmt", "swapstmt"}
+var sweepOps = []string{"relop", "negate", "const", "swapargs", "delstmt", "swapstmt", "boollit", "branchstmt", "delcase", "dupstmt"}
 
 func sweep(id, vd string, limit int, relevant map[string]bool) map[string]any {
 	repo := repoDir()
@@ -356,6 +465,6 @@ func sweep(id, vd string, limit int, relevant map[string]bool) map[string]any {
 		"per_operator":    perOp,
 		"flagged_samples": sample,
 		"surviving":       survivors,
-		"note":            "first-order syntactic variants (relational/logical operator neighbours, negated if, integer literal +1, swapped adjacent arguments, deleted statement, swapped adjacent statements) of the functions in the property's anchor files; a surviving variant is either behaviour-preserving / irrelevant to this property or a blind spot of the rules; the sweep never changes the verdict",
+		"note":            "first-order syntactic variants (relational/logical operator neighbours, negated if, integer literal +1, swapped adjacent arguments, deleted statement, swapped adjacent statements, flipped boolean literal, break/continue/return exchanged, deleted case, duplicated statement) of the functions in the property's anchor files; a surviving variant is either behaviour-preserving / irrelevant to this property or a blind spot of the rules; the sweep never changes the verdict",
 	}
 }
